@@ -129,6 +129,11 @@ func c17StringCalls() []c17Call {
 			s.Not()
 			return s.Max(5, o...)
 		}),
+		// a Not() whose result was dropped (a branch that added no test), then Not() again with its test: still "negate the next test"
+		mkTest("Not(); then Not().HasPrefix(a)", "prefix", "prefix", "a", true, func(v string) bool { return strings.HasPrefix(v, "a") }, func(s *z.StringSchema[string], o ...z.TestOption) *z.StringSchema[string] {
+			s.Not()
+			return s.Not().HasPrefix("a", o...)
+		}),
 		{name: "TestFunc(noZ)", hasOpt: true, apply: func(s *z.StringSchema[string], m *c17StrModel, opt int) *z.StringSchema[string] {
 			t := c17Test{code: "", pred: func(v string) bool { return !strings.Contains(v, "z") }}
 			opts := c17Opt(len(m.tests), opt, &t)
@@ -612,7 +617,7 @@ func c17Len(tier string) int {
 func init() {
 	Register(&Prop{
 		ID:    "C17",
-		Rule:  "one execution = one chain of ≤L builder calls on z.String() from {Min, Max, Len, HasPrefix, ContainsDigit, Not().Len, Not().HasPrefix, Not().ContainsDigit, Not().Contains, degenerate parameters Contains(empty), Not().Contains(empty), Not().HasPrefix(empty), Min(0), Not().Len(0), Not().OneOf(empty list), TestFunc} × option {none, Message, IssueCode, IssuePath, Params, Params given twice (a shared map, then the test's own), Message then MessageFunc, MessageFunc then Message (the later one counts), a MessageFunc that annotates the params of the issue it formats} and {Required, Required(Message), Optional, Default ×2, Catch ×2}, built through the real API and run on 7 subjects in both modes against a list-based model of what each call means; plus Int chains (tests × options, modifiers), plus one schema object at two places (two fields, field + slice element, field + behind pointer) vs independent copies, plus WithCoercer locality (own schema; through Ptr); every chain is non-trivial; distinct = distinct chains",
+		Rule:  "one execution = one chain of ≤L builder calls on z.String() from {Min, Max, Len, HasPrefix, ContainsDigit, Not().Len, Not().HasPrefix, Not().ContainsDigit, Not().Contains, degenerate parameters Contains(empty), Not().Contains(empty), Not().HasPrefix(empty), Min(0), Not().Len(0), Not().OneOf(empty list), Not() dropped then Not().HasPrefix, TestFunc} × option {none, Message, IssueCode, IssuePath, Params, Params given twice (a shared map, then the test's own), Message then MessageFunc, MessageFunc then Message (the later one counts), a MessageFunc that annotates the params of the issue it formats} and {Required, Required(Message), Optional, Default ×2, Catch ×2}, built through the real API and run on 7 subjects in both modes against a list-based model of what each call means; plus Int chains (tests × options, modifiers), plus one schema object at two places (two fields, field + slice element, field + behind pointer) vs independent copies, plus WithCoercer locality (own schema; through Ptr); every chain is non-trivial; distinct = distinct chains",
 		Floor: 50,
 		Bound: func(tier string) string { return fmt.Sprintf("all String chains of length ≤%d, all Int chains of length ≤3", c17Len(tier)) },
 		Assumptions: []string{"Not() is followed by the methods of the interface it returns, or — called as a statement of its own — by Min / Max on the schema value (all the type system permits)", "messages are compared only where a Message option was given"},
@@ -622,6 +627,7 @@ func init() {
 				{Name: "shared-and-coercer", MaxDevs: -1, Run: c17SharedScenario},
 				{Name: "modifiers-after-use", MaxDevs: -1, Run: c17ReuseScenario},
 				{Name: "coercer-own-schema", MaxDevs: -1, Run: c17CoercerKindsScenario},
+				{Name: "value-copies-of-schemas", MaxDevs: -1, Run: c17ValueCopyScenario},
 			}
 			for i, c := range c17StringCalls() {
 				items = append(items, Item{Name: "string-chains/first=" + c.name, MaxDevs: -1, Run: c17StringScenario(c17Len(tier), i)})
